@@ -1,12 +1,16 @@
 from . import core, standard
 
-HEADER = """From Coq Require Import List ZArith NArith QArith Floats. Import ListNotations.
-Require Import Clarabel.Base.Ops Clarabel.Base.Dyadic Clarabel.Qdldl.Model Clarabel.Qdldl.Check.
+HEADER = """From Coq Require Import List ZArith NArith QArith Floats String. Import ListNotations.
+Require Import Clarabel.Base.Ops Clarabel.Base.Dyadic Clarabel.Qdldl.Model Clarabel.Qdldl.Check Clarabel.Qdldl.ModelDriver Clarabel.Qdldl.CheckDriver.
 Local Open Scope N_scope."""
 
 
 def nontrivial(case):
     inp = case.get("input", {})
+    if case["op"] == "driver":
+        return inp["A"]["m"] + inp["A"]["n"] >= 2
+    if case["op"] == "dispatch":
+        return True
     if case["op"] == "invperm":
         return len(inp.get("perm", [])) >= 2
     return inp.get("n", 0) >= 2
@@ -26,7 +30,7 @@ def diagnose(chk, case):
 
 SPEC = {
     "props_file": "C12.v",
-    "targets": ["theories/Props/C12.vo", "theories/Qdldl/Check.vo"],
+    "targets": ["theories/Props/C12.vo", "theories/Qdldl/Check.vo", "theories/Qdldl/CheckDriver.vo"],
     "header": HEADER,
     "harness_bin": "c12",
     "harness_prop": "c12",
@@ -40,6 +44,7 @@ SPEC = {
                     "the flat storage of L is modelled column-wise (LayoutOverflow excluded by the theorems, never observed in the correspondence)",
                     "the AMD ordering is an input of the model, validated to be a permutation"],
     "coq_timeout": 2400,
+    "per_shard": 1500,   # bounds the size of every cases_*.v (memory of one coqc); thorough has ~130k cases
 }
 
 
